@@ -20,8 +20,13 @@ def streams(rng, n):
         elems = rand_array(rng, ty, cnt)
         if ty in (STRING, BINARY): elems = [e[:12] for e in elems]
         e = G.Enc(False)
-        level = rng.choice(["va", "va", "cs", "oa", "oa"])
-        if level == "va":
+        level = rng.choice(["va", "va", "cs", "oa", "oa", "str", "num"])
+        if level == "str":
+            e.string(bytes(rng.getrandbits(8) for _ in range(rng.choice([0, 1, 5, 40]))))
+        elif level == "num":
+            # an int / a packed length: any four or five bytes (a length of up to 2^28 is read, nothing is allocated)
+            e.raw(bytes(rng.choice([0, 1, 0x7f, 0x80, 0xff, rng.getrandbits(8)]) for _ in range(rng.choice([1, 4, 5, 6]))), "bytes")
+        elif level == "va":
             e.va(ty, elems, G.random_layout(rng, ty, elems))
         elif level == "oa":
             e.arr(ty, elems)
@@ -44,7 +49,9 @@ def streams(rng, n):
 
 # harness op, stream mode of the translated program, program, takes the element type, level it is run on
 OPS = [("skva", "E", "prog_sbdf_va_skip", False, "va"), ("rva", "C", "prog_sbdf_va_read", False, "va"), ("skcs", "E", "prog_sbdf_cs_skip", False, "cs"),
-       ("skobja", "E", "prog_sbdf_obj_skip_arr", True, "oa"), ("robja", "C", "prog_sbdf_obj_read_arr", True, "oa")]
+       ("skobja", "E", "prog_sbdf_obj_skip_arr", True, "oa"), ("robja", "C", "prog_sbdf_obj_read_arr", True, "oa"),
+       ("skstr", "E", "prog_sbdf_skip_string", False, "str"), ("rstr", "C", "prog_sbdf_read_string", False, "str"),
+       ("ri32", "E2", "prog_sbdf_read_int32", False, "num"), ("r7", "E2", "prog_sbdf_read_7bitpacked_int32", False, "num")]
 
 
 def run(ctx, rng, n):
@@ -75,7 +82,9 @@ def run(ctx, rng, n):
     for (i, k, op, mode, prog, typed, fail) in plan:
         ty, data = ss[i][0], ss[i][1]
         sl = "[%s]" % "; ".join(str(b) for b in data)
-        if mode == "E":
+        if mode == "E2":
+            evals.append("outE (callE prog_env %d %s [tok; tok] %s 0)" % (FUEL, prog, sl))
+        elif mode == "E":
             args = "[tok; VInt %d]" % ty if typed else "[tok]"
             evals.append("outE (callE prog_env %d %s %s %s 0)" % (FUEL, prog, args, sl))
         else:
